@@ -71,6 +71,15 @@ def replay(col, case):
             col.violation("rh-vmr-not-inverse", dict(rep, observed=float(back)))
     except Exception as ex:
         col.violation("rh-vmr-raises-" + type(ex).__name__, dict(rep, observed=repr(ex)[:200]))
+    # ... and with the default saturation function of both converters (below and above the triple point)
+    for T in (233.15, 260.0, 273.16, 300.0):
+        try:
+            back = A.vmr2relative_humidity(A.relative_humidity2vmr(v, 50000.0, T), 50000.0, T)
+            col.count(1)
+            if not close(back, v, 1e-11):
+                col.violation("rh-vmr-not-inverse-with-default-e_eq", dict(rep, T=T, observed=float(back)))
+        except Exception as ex:
+            col.violation("rh-vmr-raises-" + type(ex).__name__, dict(rep, observed=repr(ex)[:200]))
     # lapse rate with stand-in constants: g=8, cp=4, Lv=64, Rd=2, Rv=3, T=8 and a saturation function giving ws = v
     #   ws = vmr2mixing_ratio(e_eq(T)/p) = x/(1-x) * Mw/Md with Mw/Md = 1  =>  x = v / (1 + v)
     if v < 1:
